@@ -4,6 +4,7 @@ import NmVerif.Linalg
 import NmVerif.Lemmas.LinalgList
 import NmVerif.Lemmas.LinalgMatmul
 import NmVerif.Lemmas.LinalgMatmulV2
+import NmVerif.Lemmas.LinalgMatmul1d
 import NmVerif.Lemmas.LinalgDot
 import NmVerif.Lemmas.LinalgTrace
 import NmVerif.Lemmas.LinalgTensordot
@@ -34,18 +35,23 @@ example : shapeMatmul [2, 1, 3, 4] [5, 4, 2] = some [2, 5, 3, 2] := by decide
 example : shapeMatmul [4] [3, 4, 2] = some [3, 2] := by decide
 example : shapeMatmul [2, 3] [4, 2] = none := by decide
 
-/-- `view::matmul` (slicing implementation), both operands of rank ≥ 2, any batch ranks / broadcast pattern:
-    the shape is NumPy's and the terms summed for `out[β…, i, j]` are exactly
-    `a[β_a…, i, k] · b[β_b…, k, j]` for `k = 0, …, K-1`, in this order. -/
-theorem matmul_elem_eq_sum (sa sb dst : Shape) (ha : 2 ≤ sa.length) (hb : 2 ≤ sb.length)
+/-- `view::matmul` (slicing implementation), every pair of operand shapes of rank ≥ 1 that NumPy accepts — any batch ranks /
+    broadcast pattern, 1-d promotion on either side (fix C16-matmul-1d-operand: a 1-d lhs is the row, a 1-d rhs the column,
+    the result has no coordinate for it): the shape is NumPy's and the terms summed for `out[β…, i, j]` are exactly
+    `a[β_a…, i, k] · b[β_b…, k, j]` for `k = 0, …, K-1`, in this order (the `i` / `j` coordinate absent for a 1-d lhs /
+    rhs); no element access leaves the result index (`some`). -/
+theorem matmul_elem_eq_sum (sa sb dst : Shape) (ha : 1 ≤ sa.length) (hb : 1 ≤ sb.length)
     (hacc : specMatmulShape sa sb = some dst) :
     ∃ r, matmulV1 sa sb = some r ∧ r.shape = dst ∧
       ∀ d, InShape d dst → r.get d = some (specMatmulTerms sa sb d) :=
-  matmulV1_eq_spec sa sb dst ha hb hacc
+  matmulV1_eq_spec_all sa sb dst ha hb hacc
 
 example : specMatmulShape [2, 1, 2, 3] [4, 3, 2] = some [2, 4, 2, 2] := by decide
 example : specMatmulTerms [2, 1, 2, 3] [4, 3, 2] [1, 3, 0, 1] =
     [([1, 0, 0, 0], [3, 0, 1]), ([1, 0, 0, 1], [3, 1, 1]), ([1, 0, 0, 2], [3, 2, 1])] := by decide
+-- 1-d promotion on either side
+example : specMatmulShape [3] [2, 3, 2] = some [2, 2] ∧ specMatmulShape [2, 2, 3] [3] = some [2, 2] ∧ specMatmulShape [3] [3] = some [] := by decide
+example : specMatmulTerms [2, 2, 3] [3] [1, 0] = [([1, 0, 0], [0]), ([1, 0, 1], [1]), ([1, 0, 2], [2])] := by decide
 
 /-- `view::matmulv2` (tile / reshape / transpose / reshape / multiply / sum pipeline) is NumPy's matmul on every accepted
     pair of operand shapes of rank ≥ 1 with positive extents — batch broadcasting and 1-d promotion on either side
@@ -59,14 +65,16 @@ theorem matmulv2_eq_def (sa sb dst : Shape) (ha : 1 ≤ sa.length) (hb : 1 ≤ s
 example : specMatmulShape [3] [2, 3, 2] = some [2, 2] ∧ Pos [3] ∧ Pos [2, 3, 2] := by decide
 example : specMatmulTerms [3] [2, 3, 2] [1, 0] = [([0], [1, 0, 0]), ([1], [1, 1, 0]), ([2], [1, 2, 0])] := by decide
 
-/-- both implementations sum the same terms in the same order wherever `view::matmul` works (ranks ≥ 2) -/
-theorem matmulv2_eq_matmul (sa sb dst : Shape) (ha : 2 ≤ sa.length) (hb : 2 ≤ sb.length) (hpa : Pos sa) (hpb : Pos sb)
+/-- both implementations sum the same terms in the same order on every accepted pair of operand shapes of rank ≥ 1 -/
+theorem matmulv2_eq_matmul (sa sb dst : Shape) (ha : 1 ≤ sa.length) (hb : 1 ≤ sb.length) (hpa : Pos sa) (hpb : Pos sb)
     (hacc : specMatmulShape sa sb = some dst) :
     ∃ r1 r2, matmulV1 sa sb = some r1 ∧ matmulV2 sa sb = some r2 ∧ r1.shape = r2.shape ∧
       ∀ d, InShape d dst → r1.get d = some (r2.get d) := by
-  obtain ⟨r1, h1, s1, g1⟩ := matmulV1_eq_spec sa sb dst ha hb hacc
-  obtain ⟨r2, h2, s2, g2⟩ := matmulV2_eq_spec sa sb dst (by omega) (by omega) hpa hpb hacc
+  obtain ⟨r1, h1, s1, g1⟩ := matmulV1_eq_spec_all sa sb dst ha hb hacc
+  obtain ⟨r2, h2, s2, g2⟩ := matmulV2_eq_spec sa sb dst ha hb hpa hpb hacc
   exact ⟨r1, r2, h1, h2, s1.trans s2.symm, fun d hd => by rw [g1 d hd, g2 d hd]⟩
+
+example : specMatmulShape [3] [2, 3, 2] = some [2, 2] ∧ Pos [3] ∧ Pos [2, 3, 2] := by decide
 
 /-- value form: for any integer operand data the element of `matmulv2` is `Σ_k A[…]·B[…]` over NumPy's terms -/
 theorem matmulv2_value (sa sb dst : Shape) (ha : 1 ≤ sa.length) (hb : 1 ≤ sb.length) (hpa : Pos sa) (hpb : Pos sb)
@@ -76,11 +84,24 @@ theorem matmulv2_value (sa sb dst : Shape) (ha : 1 ≤ sa.length) (hb : 1 ≤ sb
   obtain ⟨r, h, _, g⟩ := matmulV2_eq_spec sa sb dst ha hb hpa hpb hacc
   exact ⟨r, h, fun d hd => by rw [g d hd]⟩
 
-/-- the unchanged `view::matmul` has no working 1-d promotion: the slicing reads `at(indices, -2)` of a 1-entry index
-    (known finding matmul.v1-1d-operand); NumPy's answer is the single sum `Σ_k a[k]·b[k]` -/
-theorem matmul_v1_1d_counterexample :
-    (matmulV1 [3] [3]).map (fun r => r.get []) = some none ∧
-    (specMatmul [3] [3]).map (fun r => r.get []) = some [([0], [0]), ([1], [1]), ([2], [2])] := by decide
+/-- value form for `view::matmul`: for any integer operand data the element is `Σ_k A[…]·B[…]` over NumPy's terms -/
+theorem matmul_value (sa sb dst : Shape) (ha : 1 ≤ sa.length) (hb : 1 ≤ sb.length)
+    (hacc : specMatmulShape sa sb = some dst) (A B : Idx → Int) :
+    ∃ r, matmulV1 sa sb = some r ∧ ∀ d, InShape d dst →
+      (r.get d).map (valueAt A B) = some (valueAt A B (specMatmulTerms sa sb d)) := by
+  obtain ⟨r, h, _, g⟩ := matmulV1_eq_spec_all sa sb dst ha hb hacc
+  exact ⟨r, h, fun d hd => by rw [g d hd]; rfl⟩
+
+example : specMatmulShape [2, 3] [3] = some [2] ∧ specMatmulTerms [2, 3] [3] [1] = [([1, 0], [0]), ([1, 1], [1]), ([1, 2], [2])] := by decide
+
+/-- regression instance of the repaired defect matmul.v1-1d-operand (fix C16-matmul-1d-operand): `view::matmul` of two 1-d
+    operands reads `Σ_k a[k]·b[k]` (formerly `at(indices,-2)` of an empty index: every element access out of range) -/
+theorem matmul_v1_1d_regression :
+    (matmulV1 [3] [3]).map (fun r => r.get []) = some (some [([0], [0]), ([1], [1]), ([2], [2])]) ∧
+    (specMatmul [3] [3]).map (fun r => r.get []) = some [([0], [0]), ([1], [1]), ([2], [2])] ∧
+    (matmulV1 [3] [3, 2]).map (fun r => r.get [1]) = some (some [([0], [0, 1]), ([1], [1, 1]), ([2], [2, 1])]) ∧
+    (matmulV1 [2, 3] [3]).map (fun r => r.get [1]) = some (some [([1, 0], [0]), ([1, 1], [1]), ([1, 2], [2])]) :=
+  ⟨by decide, by decide, by decide, by decide⟩
 
 /-! ### refusals: operand pairs NumPy does not accept -/
 
